@@ -110,7 +110,7 @@ class C11(Check):
     def generate(self, arm, index, streams, tier):
         w = streams["work"]
         if arm == "seam":
-            return {"task": "seam", "range": [index * 4096, (index + 1) * 4096]}
+            return {"task": "seam", "stride": [index, 16], "order_seed": streams["sched"].getrandbits(32)}
         if arm == "basis":
             if index < 9 * 255:
                 pos, v = divmod(index, 255)
@@ -181,7 +181,7 @@ class C11(Check):
             seen.add((oracle, site))
             res.violate(oracle, site, detail)
             sub = dict(sub)
-            sub.update(property="C11", task="ops", arm=case.get("arm"), run=case.get("run"))
+            sub.update(property="C11", task=sub.get("task", "ops"), arm=case.get("arm"), run=case.get("run"))
             res["viol"][-1]["case"] = sub
 
         def clean_checks(msg, mask_hex, mclass, mname):
@@ -229,23 +229,33 @@ class C11(Check):
             return acc
 
         if task == "seam":
-            a0, a1 = case["range"]
-            for x in range(a0, a1):
-                a, b = x >> 8, x & 255
+            # all 65 536 operand pairs, split into 16 residue classes; each run visits its class in a seeded order (every multiplier and every
+            # multiplicand value turns up in every run, in no particular order).  A failing pair is reported with the pairs visited before it
+            if "ops" in case:
+                pairs = [tuple(x) for x in case["ops"]]
+            else:
+                import random as _random
+
+                i0, st = case["stride"]
+                pairs = [((i0 + st * j) >> 8, (i0 + st * j) & 255) for j in range(65536 // st)]
+                _random.Random(case["order_seed"]).shuffle(pairs)
+            for pi, (a, b) in enumerate(pairs):
                 res["evals"] += 1
                 got = RS.log_multiply(a, b)
                 if got != gmul(a, b):
-                    fail("C11.field-multiplication", "log_multiply", f"log_multiply({a},{b}) = {got}, GF(2^8) product is {gmul(a, b)}", {"mul": [a, b], "ops": []})
+                    fail("C11.field-multiplication", "log_multiply", f"log_multiply({a},{b}) = {got}, GF(2^8) product is {gmul(a, b)} (pair #{pi} of this process)",
+                         {"task": "seam", "ops": [list(x) for x in pairs[: pi + 1]]})
                 if (a * 131 + b) % 4 == 0:  # a quarter of the pairs also as numpy scalars (what indexing a uint8 array yields)
                     import numpy
 
                     got = int(RS.log_multiply(numpy.uint8(a), numpy.uint8(b)))
                     res["evals"] += 1
                     if got != gmul(a, b):
-                        fail("C11.field-multiplication", "log_multiply:numpy.uint8", f"log_multiply(numpy.uint8({a}), numpy.uint8({b})) = {got}, GF(2^8) product is {gmul(a, b)}",
-                             {"mul": [a, b], "np": True, "ops": []})
-            res["cov"].add(f"seam|{a0 >> 12}")
-            res["ops"] = a1 - a0
+                        fail("C11.field-multiplication", "log_multiply:numpy.uint8", f"log_multiply(numpy.uint8({a}), numpy.uint8({b})) = {got}, GF(2^8) product is {gmul(a, b)} "
+                             f"(pair #{pi} of this process)", {"task": "seam", "ops": [list(x) for x in pairs[: pi + 1]]})
+            if "stride" in case:
+                res["cov"].add(f"seam|{case['stride'][0]}")
+            res["ops"] = len(pairs)
         elif task == "ops":
             if "mul" in case:
                 a, b = case["mul"]
